@@ -351,6 +351,18 @@ def run(ctx):
             for row in rnd.sample(rows, 12 if quick else 60):
                 for kind, c in comp.items():
                     emit(kind, p, False, prefix, row, observe(kind, text, p, False, prefix, row, compiled=c), "rb")
+            # the same rule declared case-insensitive (%ignore_case): matching folds case, the key and the removal command keep the
+            # words of the line; rules with several placeholders included
+            ncap = sum(1 for t in p if t["t"] in ("star", "tilde") or (t["t"] == "set" and t.get("cap")))
+            if ncap >= 3 or pi % 5 == 0:
+                try:
+                    cic = list(compile_patching_text(text + "  %ignore_case\n", vend)["local"].values())[0]
+                except Exception as e:
+                    ctx.reject("compile-ic-%s" % text, "compiler refused %%ignore_case on a pattern of the rule language: %r" % e, {"text": text}, None)
+                    continue
+                for row in rnd.sample(rows, 8 if quick else 40):
+                    row2 = [w.upper() if rnd.random() < 0.3 else w for w in row]
+                    emit("patching", p, True, prefix, row2, observe("patching", text, p, True, prefix, row2, compiled=cic), "rbic")
 
     # ---------------- flags: one row text compiled with and without case folding in the same process, in both orders
     # (the compilers are cached per process; (?i) / %ignore_case must be honoured whatever was compiled before)
